@@ -203,7 +203,11 @@ def driver():
     return vlib.go_build("./cmd/eventbusdrv", "eventbusdrv", linkflag=True)
 
 
-def run_schedules(binary, scheds, tag, workers=4):
+def reentrant(s):
+    return s["mode"] == "gated" and any(x.get("x") in (4, 5, 6) for x in s["steps"])
+
+
+def _run_chunk(binary, scheds, tag, workers):
     d = vlib.scratch("eb-run")
     inp, outp = os.path.join(d, tag + ".sched.ndjson"), os.path.join(d, tag + ".traces.ndjson")
     vlib.write_ndjson(inp, [dict({k: s[k] for k in ("id", "mode", "steps", "herd") if k in s}, kinds=KINDS) for s in scheds])
@@ -213,6 +217,20 @@ def run_schedules(binary, scheds, tag, workers=4):
     traces = vlib.read_ndjson(outp)
     if len(traces) != len(scheds):
         raise vlib.Inconclusive("eventbusdrv returned %d traces for %d schedules" % (len(traces), len(scheds)))
+    return traces
+
+
+def run_schedules(binary, scheds, tag, workers=4):
+    """schedules with re-entrant receivers leave wedged goroutines behind (every later goroutine dump of that process
+    gets longer): they run in processes of their own, 250 at a time, two processes side by side"""
+    clean = [s for s in scheds if not reentrant(s)]
+    re_ = [s for s in scheds if reentrant(s)]
+    chunks = [(clean, workers)] if clean else []
+    chunks += [(re_[i:i + 250], 2) for i in range(0, len(re_), 250)]
+    import concurrent.futures
+    with concurrent.futures.ThreadPoolExecutor(max_workers=3) as ex:
+        futs = [ex.submit(_run_chunk, binary, c, "%s-%d" % (tag, i), w) for i, (c, w) in enumerate(chunks)]
+        traces = [t for f in futs for t in f.result()]
     return traces
 
 
@@ -421,8 +439,6 @@ def run_eventbus_part(chk, args):
         chk.cov.setdefault("generation", {}).update({"EventBus:" + k: v for k, v in stats.items()})
         if len(scheds) < 300:
             raise vlib.Inconclusive("vacuous: only %d event bus schedules generated" % len(scheds))
-        # schedules with re-entrant receivers leave wedged goroutines behind (every later goroutine dump gets longer): they run last
-        scheds.sort(key=lambda s: (s["mode"] == "gated" and any(x.get("x") in (4, 5, 6) for x in s["steps"]), s["id"]))
         binary = build.get()
         strs = extgraph.Bg(strings_and_sites, chk, binary)
         traces = run_schedules(binary, scheds, "main")
